@@ -302,7 +302,7 @@ func genCore(g *GenCtx) {
 
 // ---------------------------------------------------------------- runner (core)
 
-func parseFlags(s string, f *tubes.VerifFrame) bool {
+func parseFlags(s string, f *tubes.VerifTFrame) bool {
 	if s == "-" {
 		return true
 	}
@@ -389,7 +389,7 @@ func runCore(in *bufio.Scanner, out *bufio.Writer) {
 			res = "ok"
 		case len(f) == 4 && f[0] == "rcv" && rx != nil:
 			no, ok1 := u64(f[1])
-			var fr tubes.VerifFrame
+			var fr tubes.VerifTFrame
 			ok2 := parseFlags(f[2], &fr)
 			d, ok3 := Unhex(f[3])
 			if ok1 && ok2 && ok3 && no < two32 && len(d) < 65536 {
